@@ -1,5 +1,7 @@
 from __future__ import annotations
 
+import copy
+
 import random
 import re
 import string
@@ -245,7 +247,10 @@ class SigmaFilter(SigmaRuleBase):
 
         # Rename every filter detection identifier with the shared prefix.
         for original_cond_name, condition in self.filter.detections.items():
-            rule.detection.detections[prefix + "_" + str(original_cond_name)] = condition
+            # each rule gets its own copy: pipelines transform the detections of a rule in place
+            rule.detection.detections[prefix + "_" + str(original_cond_name)] = copy.deepcopy(
+                condition
+            )
 
         # Rewrite the filter condition string so that every identifier/pattern token is
         # prefixed.  This handles:
